@@ -103,9 +103,21 @@ def handleQ (j : Json) : Except String Json := do
     -- the operand itself: text, dims and base value of a constructed quantity
     pure (Json.mkObj [("model", jqty env l), ("spec", jspec env bl kl l.units.expOf)])
   | "new" =>
-    -- `Quantity(value, units, abse)` : the constructor (folds the units if the dimensions vanish)
-    pure (Json.mkObj [("model", jqty env (Qty.new env l.mag (BU.new l.units))),
-      ("spec", withErr (jspec env bl kl l.units.expOf) (errRule1 (l.baseMag env)))])
+    -- `Quantity(value, units, abse)` : the constructor (folds the units if the dimensions vanish).
+    -- With a unit *string* that carries an explicit number `k` ('2*m', '1e3*g'):
+    -- `self.magnitude *= atom.magnitude`, i.e. value and error are multiplied by the exact number.
+    match j.getObjVal? "kf" with
+    | .ok kj => do
+      let k ← getVal kj
+      let f : Val := l.units.magnitude env
+      let rule := match l.mag.error with
+        | none => ruleExact
+        | some e => ruleEq (specScaleErr k (e * f))      -- multiplying by an exact number: |k|·err
+      pure (Json.mkObj [("model", jqty env (Qty.new env (l.mag.mul (Mag.exact k)) (BU.new l.units))),
+        ("spec", withErr (jspec env (bl * k) kl l.units.expOf) rule)])
+    | .error _ =>
+      pure (Json.mkObj [("model", jqty env (Qty.new env l.mag (BU.new l.units))),
+        ("spec", withErr (jspec env bl kl l.units.expOf) (errRule1 (l.baseMag env)))])
   | "neg" =>
     pure (Json.mkObj [("model", jqty env (l.neg env)),
       ("spec", withErr (jspec env (-bl) kl l.units.expOf) (errRule1 (l.baseMag env)))])
